@@ -146,7 +146,7 @@ def run(c):
         "harness/cmd/c19 and hooks analyzer.VerifResetGlobals / VerifGlobals (build tag verif)",
         "x/tools singlechecker flag parsing and -fix application are outside the model",
     ]
-    c.notes += ["concurrent passes: the mutex protocol is proved on the regenerated statement tree and lock-site table; real schedules of the 16-goroutine burst are explored, not proved",
+    c.notes += ["concurrent passes: race freedom / linearizability / loaded-once are proved for all schedules of an interleaving semantics of the regenerated prepareEngine tree (Conc.v); the Go memory model and sync.Mutex/sync.Pool are trusted; real schedules of the 16-goroutine burst are explored in addition",
                 "ForceNewEngine=true (testing switch) is only shown to bypass and not touch the cache"]
 
     c.build_theories()
@@ -349,6 +349,22 @@ def run(c):
 
     def search():
         compare(observe(240, c.seed + 17, tag="search"), "search")
+        # an unlocked access does not change any output: ask the Go race detector for a witness schedule
+        hr = c.build_harness("c19", race=True)
+        if hr is None:
+            return
+        tmp = os.path.join(c.work, "tmp-race")
+        os.makedirs(tmp, exist_ok=True)
+        rc, out = c.run_harness(hr, ["-n", "60", "-seed", str(c.seed + 5), "-tmp", tmp, "-par", "16"], timeout=900,
+                                env={"GORACE": "halt_on_error=0"})
+        if "WARNING: DATA RACE" in out:
+            i = out.index("WARNING: DATA RACE")
+            log = out[i:i + 3000]
+            tops = re.findall(r"(?:Read|Write|Previous read|Previous write) at [^\n]*\n\s+(\S+)", log)
+            if any(t.startswith("github.com/quasilyte/go-ruleguard/analyzer.") for t in tops):
+                c.fail("oracle", "data race on the adapter's globals reported by the Go race detector",
+                       input={"harness": "c19 -race", "args": ["-n", "60", "-seed", c.seed + 5, "-par", 16]},
+                       expected="passes running in parallel do not race", observed=log)
 
     c.coverage["exhaustive"] = False
     c.finish(search=search)
